@@ -149,7 +149,7 @@ func evalShared(im *Impl, m *memo, p *pair) result {
 func runPairs(r *verifmc.Run, im *Impl, m *memo, pairs []pair) {
 	res := make([]result, len(pairs))
 	verifmc.ParallelFor(len(pairs), func(i int) {
-		if !r.Want(pairs[i].id) {
+		if !r.Want(pairs[i].id) || r.Expired() {
 			return
 		}
 		res[i] = evalShared(im, m, &pairs[i])
@@ -232,24 +232,29 @@ func RunShared(r *verifmc.Run, im *Impl) {
 	uCore, uSmall, uBits, uLimbs := pp.PeersCore(r.Seed()), pp.PeersSmall(), pp.PeersBits(), pp.PeersLimbs(th)
 	kLimbs := pp.ScalarsLimbs(th)
 	ps := pairSet{unit: "shared"}
-	ps.product(kCore, uCore)
+	var products []string
+	prod := func(kn string, ks []Named, un string, us []Named) {
+		ps.product(ks, us)
+		products = append(products, fmt.Sprintf("%s(%d) x %s(%d)", kn, len(ks), un, len(us)))
+	}
 	uNC := pp.PeersNonCanonicalBits()
-	ps.product(kSmall, uBits)
-	ps.product(kSmall, uNC)
+	prod("k_core", kCore, "u_core", uCore)
+	prod("k_small", kSmall, "u_bits", uBits)
+	prod("k_small", kSmall, "u_noncanonical_bits", uNC)
 	var kClamp []Named
 	if th {
-		// the limb-structured alphabets are large in this tier: two scalars resp. three peers
-		ps.product(kSmall[:2], uLimbs)
-		ps.product(kBits, uSmall)
-		ps.product(kLimbs, uSmall[:3])
+		// the limb-structured alphabets are large in this tier: two scalars resp. two peers
+		prod("k_small[:2]", kSmall[:2], "u_limbs", uLimbs)
+		prod("k_bits", kBits, "u_small", uSmall)
+		prod("k_limbs", kLimbs, "u_small[:2]", uSmall[:2])
 		kClamp = pp.ScalarsClampSpace(true)
-		ps.product(kClamp, uSmall[:2])
+		prod("k_clamp_space", kClamp, "u_small[:2]", uSmall[:2])
 	} else {
-		ps.product(kSmall, uLimbs)
-		uSmall = uSmall[:3]
-		ps.product(kBits, uSmall)
-		ps.product(kLimbs, uSmall)
+		prod("k_small", kSmall, "u_limbs", uLimbs)
+		prod("k_bits", kBits, "u_small[:3]", uSmall[:3])
+		prod("k_limbs", kLimbs, "u_small[:3]", uSmall[:3])
 	}
+	r.Set("products", products)
 	r.Set("alphabet", map[string]interface{}{
 		"k_core": names(kCore, 100), "u_core": names(uCore, 400),
 		"k_small": names(kSmall, 10), "u_small": names(uSmall, 10),
@@ -257,7 +262,7 @@ func RunShared(r *verifmc.Run, im *Impl) {
 	})
 	peerL, scL := pp.LimbAlphabets(th)
 	r.Set("limb_alphabets", map[string]interface{}{"peer": fmt.Sprintf("%x", peerL), "scalar": fmt.Sprintf("%x", scL)})
-	r.Rule("distinct (scalar bytes, peer bytes) pairs of (k_core x u_core) U (k_small x (u_bits U u_limbs U u_noncanonical_bits)) U ((k_bits U k_limbs [U clamp space in thorough]) x u_small); " +
+	r.Rule("distinct (scalar bytes, peer bytes) pairs of the union of the complete products listed under extra.products (core x core, few scalars x wide peer alphabets, wide scalar alphabets x few peers); " +
 		"each pair runs the real Shared once and is compared with the RFC 7748 big.Int ladder (value) and with output==0 (flag)")
 	m := newMemo(pp.C, r)
 	runPairs(r, im, m, ps.pairs)
@@ -304,7 +309,7 @@ func RunKeyGen(r *verifmc.Run, im *Impl) {
 	res := make([]kres, len(ks))
 	verifmc.ParallelFor(len(ks), func(i int) {
 		id := "keygen/k=" + ks[i].Name
-		if !r.Want(id) {
+		if !r.Want(id) || r.Expired() {
 			return
 		}
 		x := &res[i]
@@ -386,7 +391,7 @@ func RunAgree(r *verifmc.Run, im *Impl) {
 	ks := pp.ScalarsCore(r.Seed())
 	if r.Thorough() {
 		var s set
-		for _, l := range [][]Named{ks, pp.ScalarsLimbs(false), pp.ScalarsBits()[:64]} {
+		for _, l := range [][]Named{ks, pp.ScalarsLimbs(false)} {
 			for _, n := range l {
 				s.add(n.Name, n.B)
 			}
@@ -419,7 +424,7 @@ func RunAgree(r *verifmc.Run, im *Impl) {
 			return
 		}
 		id := "agree/a=" + ks[a].Name + "/b=" + ks[b].Name
-		if !r.Want(id) {
+		if !r.Want(id) || r.Expired() {
 			return
 		}
 		x := &res[j]
